@@ -54,6 +54,9 @@ func TestCheck(t *testing.T) {
 		for k, v := range obs {
 			r.Count(k, int64(v))
 		}
+		if k := obs["component_duties_with_a_call_that_never_returned"]; k > 0 {
+			r.Inconclusive("component world: in %d duties a Propose / Participate call did not return after its context had ended (not a verdict by itself; what the monitors observed up to then was judged)", k)
+		}
 		r.Require("component_members_decided", int64(worlds*duties*2))
 		r.Require("component_duties_with_a_quorum_of_late_proposals", int64(worlds))
 	}
